@@ -1569,3 +1569,17 @@ Proof.
   - apply nth_error_None in E. lia.
 Qed.
 
+
+(* the rows reported by the check file are empty exactly when history_ok holds *)
+Lemma bad_nil ok h : bad ok h = [] <-> forallb ok h = true.
+Proof.
+  unfold bad. induction h as [|x r IH]; cbn; [tauto|]. destruct (ok x); cbn; [exact IH|].
+  split; discriminate.
+Qed.
+
+Theorem verdict_bad_iff h : verdict_bad h = [] <-> history_ok h = true.
+Proof.
+  unfold verdict_bad, history_ok. rewrite !andb_true_iff, <- !bad_nil. split.
+  - intros H. repeat (apply app_eq_nil in H; destruct H as [? H]). tauto.
+  - intros [[[[[[H1 H2] H3] H4] H5] H6] H7]. rewrite H1, H2, H3, H4, H5, H6, H7. reflexivity.
+Qed.
